@@ -704,3 +704,68 @@ Proof.
         clear -El. change (map fst all_checks) with (map fst spec_table). revert El. generalize spec_table.
         induction l as [|[k g] r IH]; cbn; [discriminate|]. destruct (Z.eqb_spec c k); [now left|]. intros H. right. now apply IH.
 Qed.
+
+(* ---------- witnesses for the known classes (evaluated, not assumed) ---------- *)
+Local Open Scope string_scope.
+Definition wt (x : Z) : tm := mkTm "t" (Some x).
+Definition wbad : tm := mkTm "not-a-date" None.
+Definition w_place (times : option (list twraw)) : place := mkPlace 0 times.
+Definition w_delivery (times : option (list twraw)) (dem : list Z) : job :=
+  mkJob "job1" None (Some [mkTask [w_place times] (Some dem)]) None None.
+Definition w_service (times : option (list twraw)) : job :=
+  mkJob "job2" None None None (Some [mkTask [w_place times] None]).
+Definition w_shift : shift := mkShift (wt 0) None (Some (wt 100)) None None.
+Definition w_vehicle (cap : list Z) (s : shift) : vehicle := mkVehicle "type1" ["v1"] "car" 1 1 cap [s].
+Definition w_doc (js : list job) (vs : list vehicle) : doc := mkDoc js vs ["car"] None.
+Definition w_base : doc := w_doc [w_delivery None [1]] [w_vehicle [10] w_shift].
+
+Definition w_k1 : doc := w_doc [w_delivery (Some [[wt 0; wt 10]; [wt 5; wt 20]; [wt 30; wt 40]]) [1]] [w_vehicle [10] w_shift].
+Definition w_k2_accept : doc := w_doc [w_delivery None [1]; w_service (Some [[wt 10; wt 5]])] [w_vehicle [10] w_shift].
+Definition w_k2_panic : doc := w_doc [w_delivery None [1]; w_service (Some [[wbad; wt 5]])] [w_vehicle [10] w_shift].
+Definition w_k3 : doc :=
+  w_doc [w_delivery None [1]] [w_vehicle [10] (mkShift wbad None (Some (wt 100)) (Some [BReqOff 10 20 5]) None)].
+Definition w_k4 : doc := w_doc [w_delivery None [1]] [w_vehicle [10] (mkShift (wt 0) (Some wbad) (Some (wt 100)) None None)].
+Definition w_k5 : doc :=
+  w_doc [w_delivery None [1]] [w_vehicle [10] (mkShift (wt 0) (Some (wt 0)) (Some (wt 100)) (Some [BOptOff [10]]) None)].
+Definition w_k6 : doc := w_doc [w_delivery None [1]] [w_vehicle [] w_shift].
+Definition w_k7 : doc := w_doc [w_delivery None [1; 1; 1; 1; 1; 1; 1; 1; 1]] [w_vehicle [10] w_shift].
+Definition w_k8 : doc :=
+  w_doc [mkJob "job1" (Some [mkTask [w_place None] (Some [])]) (Some [mkTask [w_place None] (Some [])]) None None]
+        [w_vehicle [10] w_shift].
+Definition w_k9 : doc := w_doc [w_delivery None [1]] [].
+Definition w_k10 : doc := mkDoc [w_delivery None [1]] [w_vehicle [10] w_shift] [] None.
+
+Definition breaks_no_rule (d : doc) : Prop := forall c, In c gen_doc_validation -> violates c d = false.
+Lemma breaks_no_rule_dec d : forallb (fun c => negb (violates c d)) gen_doc_validation = true -> breaks_no_rule d.
+Proof. intros H c Hc. rewrite forallb_forall in H. apply negb_true_iff. now apply H. Qed.
+
+Lemma nonvacuous_l : known w_base = false /\ breaks_no_rule w_base /\ read w_base = ROk.
+Proof. split; [|split]; [vm_compute; reflexivity|apply breaks_no_rule_dec; vm_compute; reflexivity|vm_compute; reflexivity]. Qed.
+Lemma nonvacuous_err_l : exists d, known d = false /\ read d = RErr [1103; 1306].
+Proof.
+  exists (w_doc [w_delivery (Some [[wt 10; wt 5]]) [1]] [mkVehicle "type1" ["v1"] "car" 0 0 [10] [w_shift]]).
+  split; vm_compute; reflexivity.
+Qed.
+
+Lemma k1_witness : k1_three_windows w_k1 = true /\ read w_k1 = ROk /\ violates 1103 w_k1 = true.
+Proof. repeat split; vm_compute; reflexivity. Qed.
+Lemma k2_witness_accept : k2_unchecked_task_times w_k2_accept = true /\ read w_k2_accept = ROk /\ violates 1103 w_k2_accept = true.
+Proof. repeat split; vm_compute; reflexivity. Qed.
+Lemma k2_witness_panic : k2_unchecked_task_times w_k2_panic = true /\ validate w_k2_panic = VOk /\ read w_k2_panic = RPanic.
+Proof. repeat split; vm_compute; reflexivity. Qed.
+Lemma k3_witness : k3_offset_break_bad_start w_k3 = true /\ validate w_k3 = VPanic /\ read w_k3 = RPanic.
+Proof. repeat split; vm_compute; reflexivity. Qed.
+Lemma k4_witness : k4_start_latest_bad w_k4 = true /\ breaks_no_rule w_k4 /\ validate w_k4 = VOk /\ read w_k4 = RPanic.
+Proof. split; [|split; [apply breaks_no_rule_dec|split]]; vm_compute; reflexivity. Qed.
+Lemma k5_witness : k5_offset_arity w_k5 = true /\ breaks_no_rule w_k5 /\ validate w_k5 = VOk /\ read w_k5 = RPanic.
+Proof. split; [|split; [apply breaks_no_rule_dec|split]]; vm_compute; reflexivity. Qed.
+Lemma k6_witness : k6_capacity_empty w_k6 = true /\ breaks_no_rule w_k6 /\ validate w_k6 = VOk /\ read w_k6 = RPanic.
+Proof. split; [|split; [apply breaks_no_rule_dec|split]]; vm_compute; reflexivity. Qed.
+Lemma k7_witness : k7_over8 w_k7 = true /\ breaks_no_rule w_k7 /\ validate w_k7 = VOk /\ read w_k7 = RPanic.
+Proof. split; [|split; [apply breaks_no_rule_dec|split]]; vm_compute; reflexivity. Qed.
+Lemma k8_witness : k8_empty_demand_vectors w_k8 = true /\ read w_k8 = RErr [1102] /\ violates 1102 w_k8 = false.
+Proof. repeat split; vm_compute; reflexivity. Qed.
+Lemma k9_witness : k9_no_vehicles w_k9 = true /\ breaks_no_rule w_k9 /\ validate w_k9 = VOk /\ read w_k9 = RPanic.
+Proof. split; [|split; [apply breaks_no_rule_dec|split]]; vm_compute; reflexivity. Qed.
+Lemma k10_witness : k10_no_profiles w_k10 = true /\ violates 1501 w_k10 = true /\ read w_k10 = RPanic.
+Proof. repeat split; vm_compute; reflexivity. Qed.
